@@ -36,7 +36,7 @@ S_VEC = {
 
 def bounds(tier, seed):
     return {"acyclic": "n<=3 complete with duplicates x 16 weight/scale vectors; n=4 x %s; %s"
-                       % (("unit weights/scales, 4 relabellings + desired {0,1}^4 with mixed/heavy weights x unit/mixed scales", "n=5 not run") if tier == "quick"
+                       % (("unit weights/scales, 3 relabellings + desired {0,1}^4 with mixed/heavy weights x unit/mixed scales", "n=5 not run") if tier == "quick"
                           else ("16 weight/scale vectors, 4 relabellings", "n=5 over desired {0,2}^5, 4 weight vectors")),
             "cyclic": "multisets of <=%d directed edges over %d variables, gaps {0,1,2}, desired {0,1,3}^n"
                       % ((3, 3) if tier == "quick" else (4, 4)),
@@ -201,7 +201,7 @@ def plan(tier, seed):
                        "mod": nsh, "rem": r})
     if tier == "quick":
         for r in range(nsh):
-            shards.append({"kind": "acyc", "n": 4, "dups": False, "perms": 4, "D": [0, 1, 3], "wv": ["unit"], "sv": ["unit"],
+            shards.append({"kind": "acyc", "n": 4, "dups": False, "perms": 3, "D": [0, 1, 3], "wv": ["unit"], "sv": ["unit"],
                            "mod": nsh, "rem": r})
         for r in range(16):
             shards.append({"kind": "acyc", "n": 4, "dups": False, "perms": 2, "D": [0, 1], "wv": ["mixed", "heavy0"],
